@@ -1547,4 +1547,6 @@ func TestVerifC16(t *testing.T) {
 		c16EmitAux(out, ra)
 	}
 	c16CertStream(out, rnd)
+	// round 4: histories of requests and reconfigurations on a running server
+	c16hStreams(t, out, rnd)
 }
